@@ -92,11 +92,11 @@ def gen_case(rng, force=None):
         # later modifications by models after the owner: in-place add, rewrite of the same content
         for mi in range(len(models)):
             for b, o in owners.items():
-                if mi > o["model"] and b not in ("charge",) and not (b == "photon" and photon3d) and not o["big"]:
+                if mi > o["model"] and not (b == "photon" and photon3d) and not o["big"]:
                     r = rng.random()
-                    if r < 0.15 and o["dtype"] not in ("uint8", "float16"):
+                    if r < (0.4 if b == "charge" else 0.15) and o["dtype"] not in ("uint8", "float16"):
                         step_ops[mi].append(["add", b, rng.randrange(1, 40)])
-                    elif r < 0.3:
+                    elif r < 0.3 and b != "charge":
                         step_ops[mi].append(["same", b])
             if "pixel" not in owners and rng.random() < 0.3:
                 step_ops[mi].append(["add", "pixel", rng.randrange(1, 60)])
@@ -370,6 +370,11 @@ def property_predicate(case, impl):
         if got is None:
             return ("C03:debug-node-missing", f"no debug node for step {w['step']} {g}/{m}")
         got = {b: v[1] for b, v in got.items()}  # names and values (the statement does not speak of dtypes here)
+        if got != want and set(got) == set(want):
+            b = next(k for k in want if got[k] != want[k])
+            return ("C03:debug-record-values",
+                    f"step {w['step']} {g}/{m}: the debug record of bucket {b} holds {got[b][:4]} but the bucket held {want[b][:4]} right "
+                    f"after this model (the stored array follows later in-place writes)")
         if got != want:
             cls = "first-model-of-later-step" if (first and w["step"] > 0) else "model"
             return (f"C03:debug-changed:{cls}",
@@ -440,7 +445,7 @@ def compare_with_model(ck, case, impl, ans):
 def body(ck: common.Check):
     ck.obligations(["PyxelModel.Props.C03"], ["PyxelModel.Drive.C03"])
     rng = ck.rng
-    k = 1 if ck.tier == "quick" else 10
+    k = 2 if ck.tier == "quick" else 40
     cases = []
     for _ in range(70 * k):
         cases.append(("random", gen_case(rng)))
